@@ -439,13 +439,17 @@ func (gen *generator) getIndex(index ast.Constant) gep.Index {
 		var val int64
 		for i, elem := range elems {
 			switch elem := elem.Val().(type) {
-			case *ast.IntConst:
-				// use types.I64 as dummy type for gep indices, the type doesn't matter.
-				idx, err := gen.irIntConst(types.I64, elem)
-				if err != nil {
-					panic(fmt.Errorf("unable to parse integer %q; %v", elem.Text(), err))
+			case *ast.IntConst, *ast.ZeroInitializerConst:
+				// (an integer element may be spelled `i32 zeroinitializer`)
+				var x int64
+				if elem, ok := elem.(*ast.IntConst); ok {
+					// use types.I64 as dummy type for gep indices, the type doesn't matter.
+					idx, err := gen.irIntConst(types.I64, elem)
+					if err != nil {
+						panic(fmt.Errorf("unable to parse integer %q; %v", elem.Text(), err))
+					}
+					x = idx.X.Int64()
 				}
-				x := idx.X.Int64()
 				if i == 0 {
 					val = x
 				} else if x != val {
